@@ -128,3 +128,45 @@ def d19_join_authorityless_base(prop, mech, case, info, variant):
         merged = rfc.merge(False, bp, rp)
         return got == rfc.remove_dot_segments("/" + merged)[1:]
     return False
+
+
+@finding("D22", ["C12"])
+def d22_multidict_update_drop_tails(prop, mech, case, info, variant):
+    """Mechanism: update_query / % delegates to multidict.MultiDict.update, and
+    the installed multidict (6.2.0) leaves stale duplicates behind when several
+    keys are updated and an earlier key's surplus pairs are deleted first (its
+    'drop tails' pass uses indices that went stale).  Input predicate: the
+    dependency itself, called directly on (existing pairs, new pairs), violates
+    the update contract.  Bug model: yarl's result is exactly what the
+    dependency returns."""
+    if mech != "multidict_model" or info.get("_op") != "update_query":
+        return False
+    from multidict import MultiDict
+
+    old = info.get("_old")
+    got = [tuple(p) for p in info.get("got", [])]
+    arg = info.get("_arg")
+    for news in info.get("_alts", []):
+        m = MultiDict(old)
+        if info.get("_form") in ("dict", "mdict", "cimdict", "kwargs"):
+            # yarl hands the mapping over as it is (sequence values are expanded when serialising)
+            m.update(arg)
+            dep = []
+            for k, v in m.items():
+                for x in (v if isinstance(v, (list, tuple)) else (v,)):
+                    dep.append((k, x if isinstance(x, str) else (str(float(x)) if isinstance(x, float) else str(int(x)))))
+        else:
+            m.update(news)
+            dep = list(m.items())
+        # the dependency must be wrong on this input (same contract the monitor uses) ...
+        newkeys = {k for k, _ in news}
+        keep = [(k, v) for k, v in old if k not in newkeys]
+        dep_ok = [(k, v) for k, v in dep if k not in newkeys] == keep and all(
+            [v for k, v in dep if k == nk] == [v for k, v in news if k == nk] for nk in newkeys
+        )
+        if dep_ok:
+            continue
+        # ... and yarl must return exactly the dependency's answer
+        if dep == got:
+            return True
+    return False
